@@ -877,6 +877,29 @@ class C06(HttpProp):
         # payloads that ARE well-formed compressed streams / containers (a storage layer that compresses
         # or sniffs content must still give back the uploaded bytes, not what they decode to)
         streams = content_streams()
+        # uploads that announce a Content-Encoding (the protocol has none: the body is the payload, byte for byte),
+        # with bodies that ARE valid streams of that coding and bodies that are not
+        import gzip as _gz, zlib as _zl
+        txt = b"sealed payload " * 30
+        ce = [("ce-gzip", _gz.compress(txt, mtime=0)), ("ce-deflate", _zl.compress(txt)), ("ce-identity", txt[:40]), ("ce-gzip", b"not a gzip stream at all"),
+              ("ce-br", txt[:33]), ("ce-zstd", bytes([0x28, 0xB5, 0x2F, 0xFD]) + txt[:20]), ("ce-xgzip", _gz.compress(b"x", mtime=0))]
+        ops = ["http POST av hyph=nil hyph=1 history b:1"]
+        for xh, bs in ce:
+            body = "b:" + ",".join(str(x) for x in bs)
+            ops += [f"http POST av hyph=latest:1 hyph=1 history {body} xh={xh}", "http GET gcv hyph=anc:1:1 hyph=1 absent e",
+                    f"http POST as hyph=latest:1 hyph=1 snapshot {body} xh={xh}", "http GET snap - hyph=1 absent e"]
+        ops += ["reopen", "walk 1", "http GET snap - hyph=1 absent e"]
+        out.append(Case("c06-content-encoding", ops, mode="http"))
+        # a second upload for the version that already holds the snapshot (another replica answering the same
+        # request: other bytes): what get-snapshot returns stays the bytes of the upload that created it
+        for k in range(sizes(tier, 4, 16)):
+            ops = ["http POST av hyph=nil hyph=1 history b:1"] + [f"http POST av hyph=latest:1 hyph=1 history b:2,{i}" for i in range(k % 4)]
+            ops += [f"http POST as hyph=latest:1 hyph=1 snapshot r:{70 + k}", "http GET snap - hyph=1 absent e",
+                    f"http POST as hyph=latest:1 hyph=1 snapshot r:{90 + k}", "http GET snap - hyph=1 absent e",
+                    "http POST as hyph=latest:1 hyph=1 snapshot chunks:3,4", "http GET snap - hyph=1 absent e",
+                    "http POST av hyph=latest:1 hyph=1 history b:3", "http POST as hyph=anc:1:1 hyph=1 snapshot b:5,5", "http GET snap - hyph=1 absent e",
+                    "reopen", "http GET snap - hyph=1 absent e"]
+            out.append(Case(f"c06-resnap-{k}", ops, mode="http"))
         ops = []
         for name, bs in streams.items():
             body = "b:" + ",".join(str(x) for x in bs)
@@ -929,7 +952,12 @@ class C06(HttpProp):
                 if h.route == "snap" and r.status == 200 and case.meta.get("faults") and h.cid in snap and snap[h.cid] != (r.xv, r.body) and (r.xv, r.body) not in snaps_ok:
                     pass
                 if h.route == "as" and r.status == 200:
-                    snap[h.cid] = (h.seg, h.body())
+                    # (ids are numbered in the order the server issued them: an upload for the version that already
+                    # holds the snapshot, or for an older one, is declined — the bytes of the upload that created
+                    # the snapshot stay)
+                    cur = snap.get(h.cid)
+                    if not (cur and cur[0].isdigit() and h.seg.isdigit() and int(h.seg) <= int(cur[0])):
+                        snap[h.cid] = (h.seg, h.body())
                 if h.route == "gcv" and r.status == 200:
                     if r.xv in sent and (sent[r.xv][1] != r.body or sent[r.xv][0] != r.xp):
                         fails.append(f"op {i}: version {r.xv} returned parent {r.xp} body `{r.body[:60]}`, uploaded parent {sent[r.xv][0]} body `{sent[r.xv][1][:60]}`")
